@@ -454,7 +454,7 @@ def plans_C03(g, tier):
 
 
 # ---------------------------------------------------------------- C04
-M_C04 = F_REPCOUNT | F_REPCULPRIT | F_REPDETAIL | F_KIND
+M_C04 = F_REPCOUNT | F_REPCULPRIT | F_REPDETAIL | F_KIND | F_QEXP   # is_satisfied() is the observable form of "handled count below the lower bound"
 
 
 def c04_alphabet(g, slots):
@@ -466,6 +466,7 @@ def c04_alphabet(g, slots):
             A.append(g.create(slot, g.shape(mock='MV', fn=F1, mk1='EQ'), obj=2, k1=1, lo=b[0], hi=b[1]))
         A.append(g.create(slot, g.shape(fn=F1, mk1='ANY', seqar=1), obj=0, lo=1, hi=1, s1=0))
         A.append(g.create(slot, g.shape(fn=F1, mk1='EQ', tform='RT1'), obj=0, k1=1, lo=2, hi=2))                 # RT_TIMES(2)
+        A.append(g.create(slot, g.shape(fn=F1, mk1='EQ', seqar=1), obj=0, k1=slot % 2, lo=1, hi=1, s1=0))          # sequenced, exact values: a call can be out of order (an earlier fatal report)
         A.append(g.create(slot, g.shape(fn=F1, mk1='EQ', tform='ALLOW', vform=True), obj=0, k1=1, lo=0, hi=INF))   # NAMED_ALLOW_CALL_V(m, f(1)) - the two-argument variadic form
         A.append(g.create(slot, g.shape(fn=F2, mk1='EQ', mk2='ANY'), obj=0, k1=1, lo=2, hi=2))
         A.append(g.release(slot))
@@ -498,6 +499,8 @@ def c07_alphabet(g, slots):
             A.append(g.create(slot, g.shape(fn=F1, mk1=mk, tform='FORBID'), obj=0, k1=1))
         A.append(g.create(slot, g.shape(fn=F1, mk1='EQ', tform='N', tl=0), obj=0, k1=1))
         A.append(g.create(slot, g.shape(fn=F1, mk1='NE', tform='RT'), obj=0, k1=1, lo=0, hi=0))
+        A.append(g.create(slot, g.shape(fn=F1, mk1='EQ', tform='RT', seqar=1, clauses='TQA'), obj=0, k1=1, lo=0, hi=0, s1=0))   # RT_TIMES(0) then IN_SEQUENCE: still forbidding
+        A.append(g.create(slot, g.shape(fn=F1, mk1='EQ', tform='RT1', seqar=1, clauses='QTA'), obj=0, k1=2, lo=0, hi=0, s1=0))  # IN_SEQUENCE then RT_TIMES(0)
         A.append(g.create(slot, g.shape(fn=F1, mk1='EQ', tform='RT', nse=1), obj=0, k1=2, lo=1, hi=1))
         A.append(g.create(slot, g.shape(fn=F2, mk1='EQ', mk2='ANY', tform='FORBID'), obj=0, k1=1))
         A.append(g.create(slot, g.shape(fn=F1, mk1='ANY', tform='FORBID', nwith=1), obj=0, wmode=(2, 0, 0)))            # FORBID_CALL(...).WITH(_1 != 2)
